@@ -44,6 +44,7 @@ def run(prog, tier):
     check_offsets(R, prog)
     check_label_order(R, prog)
     check_writers(R, prog)
+    check_return_defined(R, prog)
     return R
 
 
@@ -320,3 +321,78 @@ def check_writers(R, prog):
         R.ok("WRITER-ROWS", "matrix reader: exactly n*m entries, entry (i,j)=1 adds edge (i,j), surplus entries refused", r.key)
     else:
         R.bad(F("WRITER-ROWS", r, "matrix reader", "the reader must consume exactly n*m 0/1 entries row by row and refuse surplus data"))
+
+
+def check_return_defined(R, prog):
+    """RETURN-DEFINED: a reader hands back a graph, never None.  For `return X` with X initialised to None, every path to the return
+    either assigns X a constructed object, or passes a raising test that fires while X is still None: `if X is None: raise`, or the
+    count sentinel idiom `if a != b: raise` where `a` starts from a negative constant and is set only where X is, and `b` is a counter
+    that starts at 0 and only grows -- so `a != b` holds as long as the specification line was not seen.  (With a sentinel of 0 a file
+    without specification line and without edges passes the test and None is returned; the caller then fails with AttributeError.)"""
+    m = prog.modules[MOD]
+    n = 0
+    for q, fi in sorted(m.functions.items()):
+        if not q.startswith("_read_") or "<locals>" in q:
+            continue
+        stmts = stmts_in(fi.node)
+        cfg = CFG(fi.node)
+        inits = {}
+        for st in fi.node.body:
+            if isinstance(st, ast.Assign) and len(st.targets) == 1 and isinstance(st.targets[0], ast.Name):
+                inits.setdefault(st.targets[0].id, st.value)
+        for ret in [x for x in stmts if isinstance(x, ast.Return) and isinstance(x.value, ast.Name)]:
+            X = ret.value.id
+            if not (X in inits and isinstance(inits[X], ast.Constant) and inits[X].value is None):
+                continue
+            n += 1
+            rn = cfg.node_of(ret)
+            assigns = [st for st in stmts if isinstance(st, ast.Assign) and any(isinstance(t, ast.Name) and t.id == X for t in st.targets)
+                       and not (isinstance(st.value, ast.Constant) and st.value.value is None)]
+            an = [cfg.node_of(a) for a in assigns if cfg.node_of(a) is not None]
+            inst = "%s returns %s" % (q, X)
+            if not cfg.reaches(cfg.entry, rn, avoid=an):
+                R.ok("RETURN-DEFINED", inst + ": assigned on every path", fi.key)
+                continue
+            ok = False
+            why = "some path reaches `return %s` with %s still None" % (X, X)
+            for g in [st for st in stmts if isinstance(st, ast.If) and st.body and isinstance(st.body[-1], ast.Raise)]:
+                gn = cfg.node_of(g)
+                if gn is None or not cfg.dominates(gn, rn):
+                    continue
+                t = g.test
+                if isinstance(t, ast.Compare) and len(t.ops) == 1 and isinstance(t.ops[0], ast.Is) and src(t.left) == X and src(t.comparators[0]) == "None":
+                    ok = True
+                    break
+                if isinstance(t, ast.UnaryOp) and isinstance(t.op, ast.Not) and src(t.operand) == X:
+                    ok = True
+                    break
+                if isinstance(t, ast.Compare) and len(t.ops) == 1 and isinstance(t.ops[0], ast.NotEq) and \
+                        isinstance(t.left, ast.Name) and isinstance(t.comparators[0], ast.Name):
+                    for a, b in ((t.left.id, t.comparators[0].id), (t.comparators[0].id, t.left.id)):
+                        ia, ib = inits.get(a), inits.get(b)
+                        a_sets = [st for st in stmts if isinstance(st, ast.Assign) and any(isinstance(x, ast.Name) and x.id == a for x in st.targets) and st is not None
+                                  and st not in fi.node.body]
+                        b_changes = [st for st in stmts if (isinstance(st, (ast.Assign, ast.AugAssign)) and
+                                                            any(isinstance(x, ast.Name) and x.id == b for x in ([st.target] if isinstance(st, ast.AugAssign) else st.targets)))
+                                     and st not in fi.node.body]
+                        counter = ib is not None and const(ib) == 0 and b_changes and all(
+                            isinstance(st, ast.AugAssign) and isinstance(st.op, ast.Add) and isinstance(const(st.value), int) and const(st.value) > 0 for st in b_changes)
+                        # `a` is set only together with X (same block as an assignment of X)
+                        together = a_sets and all(any(cfg.node_of(x) is not None and cfg.node_of(s2) is not None and
+                                                      cfg.dominates(cfg.node_of(s2), cfg.node_of(x)) or cfg.dominates(cfg.node_of(x), cfg.node_of(s2))
+                                                      for x in assigns) for s2 in a_sets)
+                        if counter and together and ia is not None:
+                            va = const(ia) if not (isinstance(ia, ast.UnaryOp) and isinstance(ia.op, ast.USub)) else -const(ia.operand)
+                            if isinstance(va, int) and va < 0:
+                                ok = True
+                            else:
+                                why = ("the count test `%s` is what refuses a file without specification line, but `%s` starts at %s, a value the "
+                                       "counter `%s` (from 0, only growing) can equal: with no specification line and %s edge lines the test "
+                                       "passes and None is returned" % (src(t), a, src(ia), b, src(ia)))
+                    if ok:
+                        break
+            if ok:
+                R.ok("RETURN-DEFINED", inst + ": a raising test fires while it is still None", fi.key)
+            else:
+                R.bad(F("RETURN-DEFINED", fi, "%s can return None" % q, why, ret))
+    R.floor("RETURN-DEFINED", n, 1)
